@@ -989,7 +989,7 @@ class Vector():
 					vals.append(None)
 				else:
 					vals.append(x + y)
-			return Vector(vals, dtype=self._dtype, name=None, as_row=self._display_as_row)
+			return Vector(vals, dtype=infer_dtype(vals), name=None, as_row=self._display_as_row)
 		
 		# Scalar + Vector
 		if not isinstance(other, Iterable) or isinstance(other, (str, bytes, bytearray)):
@@ -999,7 +999,7 @@ class Vector():
 					vals.append(None)
 				else:
 					vals.append(other + x)
-			return Vector(vals, dtype=self._dtype, name=None, as_row=self._display_as_row)
+			return Vector(vals, dtype=infer_dtype(vals), name=None, as_row=self._display_as_row)
 		
 		# Iterable + Vector
 		if isinstance(other, Iterable) and not isinstance(other, (str, bytes, bytearray)):
@@ -1011,7 +1011,7 @@ class Vector():
 					vals.append(None)
 				else:
 					vals.append(x + y)
-			return Vector(vals, dtype=self._dtype, name=None, as_row=self._display_as_row)
+			return Vector(vals, dtype=infer_dtype(vals), name=None, as_row=self._display_as_row)
 		
 		raise SerifTypeError(f"Unsupported operand type: {type(other).__name__}")
 
